@@ -3,23 +3,26 @@
 set -e
 OUT=${1:?outdir}; RACE=${2:-}
 export GOFLAGS=-mod=mod GOPROXY=off GOSUMDB=off GOTOOLCHAIN=local
+# the engine tree to build: /repo, unless a seed trial points at a scratch worktree of it (tools/try_seed_wt.py)
+export VERIF_REPO=${VERIF_REPO:-/repo}
 mkdir -p "$OUT"
 python3 - "$OUT" <<'PY'
 import json,os,sys,glob
 out=sys.argv[1]
 rep={}
 for f in glob.glob('/verif/harness/*.go'):
-    rep['/repo/cmd/verifh/'+os.path.basename(f)]=f
+    rep[os.environ['VERIF_REPO']+'/cmd/verifh/'+os.path.basename(f)]=f
 json.dump({"Replace":rep},open(os.path.join(out,'overlay.json'),'w'))
 PY
-cd /repo
+cd "$VERIF_REPO"
 if [ "$RACE" = cli ]; then
   # the real command-line program + the scripted deployer (harness/cli/cli_init.go)
   python3 - "$OUT" <<'PY'
 import json,os,sys
 out=sys.argv[1]
-rep={'/repo/cmd/arcaflow/zz_verif_sink.go':'/verif/harness/sink.go','/repo/cmd/arcaflow/zz_verif_scripted.go':'/verif/harness/scripted.go',
-     '/repo/cmd/arcaflow/zz_verif_cli_init.go':'/verif/harness/cli/cli_init.go'}
+R=os.environ['VERIF_REPO']
+rep={R+'/cmd/arcaflow/zz_verif_sink.go':'/verif/harness/sink.go',R+'/cmd/arcaflow/zz_verif_scripted.go':'/verif/harness/scripted.go',
+     R+'/cmd/arcaflow/zz_verif_cli_init.go':'/verif/harness/cli/cli_init.go'}
 json.dump({"Replace":rep},open(os.path.join(out,'overlay_cli.json'),'w'))
 PY
   go build -overlay "$OUT/overlay_cli.json" -tags verif -o "$OUT/verifcli" ./cmd/arcaflow
